@@ -888,8 +888,8 @@ class ZFilter(meta(LinearFilter, metaclass=ZFilterMeta)):
 
     """
     if isinstance(seq, ZFilter):
-      return sum(v * seq ** -k for k, v in self.numpoly.terms()) / \
-             sum(v * seq ** -k for k, v in self.denpoly.terms())
+      return sum(v * seq.copy() ** -k for k, v in self.numpoly.terms()) / \
+             sum(v * seq.copy() ** -k for k, v in self.denpoly.terms())
     else:
       return super(ZFilter, self).__call__(seq, memory=memory, zero=zero)
 
